@@ -11,7 +11,8 @@ use crate::runner::{CaseInfo, Check, Tier, Verdict};
 use crate::sim::TargetSpec;
 use passage_adapters::discovery::DiscoveryAdapter;
 use passage_adapters::strategy::StrategyAdapter;
-use passage_adapters_grpc::{GrpcDiscoveryAdapter, GrpcStrategyAdapter};
+use passage::adapter::discovery::DynDiscoveryAdapter;
+use passage::adapter::strategy::DynStrategyAdapter;
 use proptest::prelude::*;
 use serde::{Deserialize, Serialize};
 use serde_json::{Value, json};
@@ -45,8 +46,9 @@ pub struct C19;
 
 struct Env {
     mock: GrpcMock,
-    discovery: GrpcDiscoveryAdapter,
-    strategy: GrpcStrategyAdapter,
+    /// built from configuration values, the way `passage::start` builds them
+    discovery: DynDiscoveryAdapter,
+    strategy: DynStrategyAdapter,
 }
 
 fn env() -> &'static Env {
@@ -55,8 +57,10 @@ fn env() -> &'static Env {
         mocks::rt().block_on(async {
             let mock = GrpcMock::start().await;
             let url = format!("http://127.0.0.1:{}", mock.port);
-            let discovery = GrpcDiscoveryAdapter::new(url.clone()).await.expect("connect discovery");
-            let strategy = GrpcStrategyAdapter::new(url).await.expect("connect strategy");
+            let dcfg: passage::config::DiscoveryAdapter = serde_json::from_value(serde_json::json!({"grpc": {"address": url}})).expect("discovery configuration");
+            let scfg: passage::config::StrategyAdapter = serde_json::from_value(serde_json::json!({"grpc": {"address": url}})).expect("strategy configuration");
+            let discovery = DynDiscoveryAdapter::from_config(dcfg).await.expect("connect discovery");
+            let strategy = DynStrategyAdapter::from_config(scfg).await.expect("connect strategy");
             Env { mock, discovery, strategy }
         })
     })
